@@ -12,7 +12,9 @@ RULE = ("histories of merge/delete operations threaded through the returned inde
         "symmetrised / zero-row-sum variants, all set partitions as join lists (also permuted, duplicated, split forms), all "
         "deletion sets, all operation sequences up to a bounded length (quick: n<=3 length<=3, n=4 length<=2; thorough: n<=4 "
         "length<=3, n=5 length<=2). Random part: sizes up to 40 (CPython set order wraps from n>=9), up to 8 operations, join "
-        "lists with repeats, overlaps, already merged / already deleted members, dense and csr; cut_and_merge with all four "
+        "lists with repeats, overlaps, already merged / already deleted members, dense and csr; the same histories with the matrix in "
+        "14 representations (int / Fortran / strided dense, csr incl. unsorted and explicit zeros, csc, coo incl. duplicates, lil, "
+        "dok, csr_matrix, np.matrix) and join / deletion lists as lists, tuples, arrays, numpy integers, sets; cut_and_merge with all four "
         "limit combinations. A case is non-trivial when at least one operation changes the matrix size; distinct by (matrix, ops).")
 CHUNK = 1500
 
@@ -82,6 +84,90 @@ def all_ops(n, rng, forms=True):
     return out
 
 
+DENSE_REPS = ("dense", "int", "fortran", "strided")
+MAT_REPS = DENSE_REPS + ("csr", "csr_unsorted", "csr_zeros", "csc", "coo", "coo_dup", "lil", "dok", "csr_matrix", "np_matrix")
+J_REPS = ("list", "tuple", "arr", "2d", "npint")
+R_REPS = ("list", "tuple", "arr", "npint", "set")
+
+
+def mat_in(M, rep):
+    """the matrix `M` (integer valued, float64) in the requested representation; every one of them is accepted by
+    merge_matrix_cells / delete_rate_cells on the unchanged tree and denotes the same matrix"""
+    from scipy import sparse
+    if rep == "dense":
+        return M.copy()
+    if rep == "int":
+        return M.astype(np.int64)
+    if rep == "fortran":
+        return np.asfortranarray(M)
+    if rep == "strided":
+        big = np.zeros((2 * M.shape[0], 2 * M.shape[1]))
+        big[::2, ::2] = M
+        return big[::2, ::2]
+    if rep == "csr":
+        return sparse.csr_array(M)
+    if rep == "csr_unsorted":
+        A = sparse.csr_array(M)
+        for i in range(A.shape[0]):                      # reverse the column order inside every row
+            a, b = A.indptr[i], A.indptr[i + 1]
+            A.indices[a:b] = A.indices[a:b][::-1].copy()
+            A.data[a:b] = A.data[a:b][::-1].copy()
+        A.has_sorted_indices = False
+        return A
+    if rep == "csr_zeros":
+        n = M.shape[0]
+        r, c = np.nonzero(np.ones_like(M))
+        return sparse.csr_array((M[r, c], (r, c)), shape=(n, n))     # explicit zeros stored
+    if rep == "csc":
+        return sparse.csc_array(M)
+    if rep == "coo":
+        return sparse.coo_array(M)
+    if rep == "coo_dup":
+        A = sparse.coo_array(M)
+        h = A.data / 2.0                                  # halves of integers are exact: every entry split in two
+        return sparse.coo_array((np.concatenate([h, A.data - h]),
+                                 (np.concatenate([A.row, A.row]), np.concatenate([A.col, A.col]))), shape=M.shape)
+    if rep == "lil":
+        return sparse.lil_array(M)
+    if rep == "dok":
+        return sparse.dok_array(M)
+    if rep == "csr_matrix":
+        return sparse.csr_matrix(M)
+    if rep == "np_matrix":
+        return np.matrix(M)
+    raise core.HarnessError(f"unknown matrix representation {rep}")
+
+
+def joins_in(J, rep):
+    if rep == "list":
+        return [list(x) for x in J]
+    if rep == "tuple":
+        return tuple(tuple(x) for x in J)
+    if rep == "arr":
+        return [np.array(x, dtype=np.int64) for x in J]
+    if rep == "2d":
+        if J and len({len(x) for x in J}) == 1 and len(J[0]) > 0:
+            return np.array([list(x) for x in J])
+        return [np.array(x, dtype=np.int32) for x in J]
+    if rep == "npint":
+        return [[np.int64(v) if k % 2 else np.int32(v) for k, v in enumerate(x)] for x in J]
+    raise core.HarnessError(f"unknown join-list representation {rep}")
+
+
+def dels_in(R, rep):
+    if rep == "list":
+        return list(R)
+    if rep == "tuple":
+        return tuple(R)
+    if rep == "arr":
+        return np.array(list(R), dtype=np.int64)
+    if rep == "npint":
+        return [np.int64(v) for v in R]
+    if rep == "set":
+        return set(R)
+    raise core.HarnessError(f"unknown deletion-list representation {rep}")
+
+
 def cases(ctx):
     rng = ctx.rng
     plan = [(2, 3), (3, 3), (4, 2)] if ctx.quick else [(2, 4), (3, 3), (4, 3), (5, 2)]
@@ -124,6 +210,37 @@ def cases(ctx):
                     R = [rng.randrange(n) for _k in range(rng.randint(0, max(1, n // 2)))]
                 ops.append({"k": "delete", "R": R})
         yield {"kind": "hist", "A": M, "sparse": rng.random() < 0.5, "ops": ops}
+    # INPUT REPRESENTATION: the same histories with the matrix, the join lists and the deletion list handed over in every
+    # representation the functions accept on the unchanged tree (the expected result does not depend on it)
+    rep_hists = [
+        [{"k": "merge", "J": [[0, 2], [3, 4]]}, {"k": "delete", "R": [1]}, {"k": "merge", "J": [[5, 0], [4, 1]]}],
+        [{"k": "delete", "R": [2, 4]}, {"k": "merge", "J": [[0, 2, 3], [1, 0, 5]]}, {"k": "delete", "R": [0]}],
+    ]
+    for ops in rep_hists:
+        for variant in ("gen", "zrs"):
+            for mrep in MAT_REPS:
+                yield {"kind": "hist", "n": 5 if variant == "gen" else 6, "variant": variant, "sparse": mrep not in DENSE_REPS,
+                       "ops": ops, "mrep": mrep, "jrep": "list", "rrep": "list"}
+        for jrep in J_REPS:
+            for rrep in R_REPS:
+                mrep = "csr" if jrep in ("arr", "2d") else "dense"
+                yield {"kind": "hist", "n": 6, "variant": "sym", "sparse": mrep == "csr", "ops": ops,
+                       "mrep": mrep, "jrep": jrep, "rrep": rrep}
+    for _ in range(60 if ctx.quick else 900):
+        n = rng.choice([2, 3, 5, 8, 9, 12, 17])
+        M = [[rng.randint(0, 5) if rng.random() < 0.6 else 0 for _j in range(n)] for _i in range(n)]
+        for i in range(n):
+            M[i][i] = -sum(M[i][j] for j in range(n) if j != i) if rng.random() < 0.6 else rng.randint(-3, 3)
+        ops = []
+        for _s in range(rng.randint(1, 5)):
+            if rng.random() < 0.6:
+                ops.append({"k": "merge", "J": [[rng.randrange(n) for _k in range(rng.randint(1, 4))] for _l in range(rng.randint(1, 3))]})
+            else:
+                ops.append({"k": "delete", "R": [rng.randrange(n) for _k in range(rng.randint(0, max(1, n // 2)))]})
+        mrep = rng.choice(MAT_REPS)
+        yield {"kind": "hist", "A": M, "sparse": mrep not in DENSE_REPS, "ops": ops, "mrep": mrep,
+               "jrep": rng.choice(J_REPS), "rrep": rng.choice(R_REPS)}
+    ctx.extra_cov["input_representations"] = {"matrix": list(MAT_REPS), "join_lists": list(J_REPS), "deletion_lists": list(R_REPS)}
     # cut_and_merge
     for _ in range(150 if ctx.quick else 2000):
         n = rng.choice([2, 3, 4, 6, 9, 12, 16])
@@ -192,16 +309,20 @@ def impl(case):
         except Exception as e:
             return {"err": core.errname(e)}
     M = matrix_of(case)
-    A = csr_array(M) if case["sparse"] else M.copy()
+    if "mrep" in case:
+        A = mat_in(M, case["mrep"])
+    else:
+        A = csr_array(M) if case["sparse"] else M.copy()
+    jrep, rrep = case.get("jrep", "list"), case.get("rrep", "list")
     il = None
     states = []
     for op in case["ops"]:
         try:
             with core.quiet():
                 if op["k"] == "merge":
-                    A, il = merge_matrix_cells(A, [list(x) for x in op["J"]], index_list=il)
+                    A, il = merge_matrix_cells(A, joins_in(op["J"], jrep), index_list=il)
                 else:
-                    A, il = delete_rate_cells(A, list(op["R"]), index_list=il)
+                    A, il = delete_rate_cells(A, dels_in(op["R"], rrep), index_list=il)
         except Exception as e:
             states.append({"err": core.errname(e)})
             break
@@ -247,6 +368,10 @@ def compare(ctx, case, out, mouts):
         ctx.nt(core.hashlib.sha256(repr((out["M"], case["ops"])).encode()).hexdigest()[:16])
     ctx.branch(f"len{len(case['ops'])}")
     ctx.branch("sparse" if case["sparse"] else "dense")
+    if "mrep" in case:
+        ctx.branch(f"rep:matrix={case['mrep']}")
+        ctx.branch(f"rep:joins={case['jrep']}")
+        ctx.branch(f"rep:deletions={case['rrep']}")
     if len(case["ops"]) == 3 and n0 == 3:
         ctx.sample(case, limit=4)
 
